@@ -52,6 +52,11 @@ def small_population(cfg, blobdir):
     if cfg['fstype'] != 'ext2' or True: c += ['ea_set mid user.a v1']
     # top-level directories are spread over the block groups by the allocator; with few inodes per group they reach the last groups, so every group's descriptors and tables matter for the restore
     for i in range(90): c += ['mkdir s%02d' % i, 'write %s s%02d/f' % (small, i)]
+    # libext2fs allocates inodes first-fit from the parent's group: to put inodes (and hence live descriptors/tables) into the LAST groups the table has to be filled
+    try: ninodes = int(cfg['extra'][cfg['extra'].index('-N') + 1])
+    except Exception: ninodes = 0
+    if 0 < ninodes <= 1300:
+        c += ['mkdir fill', 'cd fill'] + ['write /dev/null i%04d' % i for i in range(max(0, ninodes - 300))] + ['cd /']
     return c
 
 def body(case, env):
